@@ -12,7 +12,7 @@ def run(ck):
     sys_eval = ck.stats.get("direct_clauses_evaluated", 0)
     _bc.run_bc(ck, "c08", set("c08_store_before_send c08_kept_until_acked c08_resend c08_no_second_new c08_popped_is_saved c08_pubrel_after_store "
                            # added by the audit (audit/C08.md)
-                           "c08_deqack_after_store c08_store_replica c20_acted_on c15_resend_order c15_resend_first".split()))
+                           "c08_deqack_after_store c08_store_replica c20_acted_on c15_resend_order c15_resend_first c08_ledger".split()))
     ck.evaluations += sys_eval
     ck.rule += ("; plus whole-broker scenarios (real MemoryBackend over TCP): a persistent subscriber withholding 1..window+2 acknowledgements, cut and "
                 "resumed 1..3 times (also during the resend phase), publishes while offline, final clean connect: nothing_lost, qos2_not_twice_new, "
